@@ -44,6 +44,24 @@ def write_stream_bytes(items):
     return data
 
 
+def write_stream_bytes_tolerant(items):
+    """Like write_stream_bytes, but a write() that raises is caught and the application carries on with the next item
+    (what a long-running collector does).  Returns (bytes, indices of the items whose write succeeded, errors)."""
+    from flow.record import RecordStreamWriter
+    buf = io.BytesIO()
+    w = RecordStreamWriter(buf)
+    ok, errors = [], []
+    for i, it in enumerate(items):
+        try:
+            w.write(it)
+            ok.append(i)
+        except Exception as e:  # noqa
+            errors.append((i, "%s: %s" % (type(e).__name__, e)))
+    data = buf.getvalue()
+    w.fp = None
+    return data, ok, errors
+
+
 def read_stream_items(data, selector=None):
     from flow.record import RecordStreamReader
     with warnings.catch_warnings():
